@@ -554,7 +554,7 @@ CancelHandler(s, same) ==
 \* completed (caches filled) or been cancelled with it -- both are possible schedules
 DeliverCancel(cached) ==
   /\ S.pc \in {"sleep0", "cmd"} /\ S.cancel
-  /\ LET inCache == S.pc = "cmd" /\ S.cmd.kind \in {"read_cache", "mon_cache", "collect_cache"}
+  /\ LET inCache == S.pc = "cmd" /\ S.cmd.kind \in {"read_cache", "mon_cache", "collect_cache", "declare_cache"}
          s0 == IF inCache /\ cached
                THEN (IF S.cmd.kind = "collect_cache" THEN [S EXCEPT !.runs[S.cur.run].ccache = @ \cup {S.cur.obj}]
                      ELSE [S EXCEPT !.runs[S.cur.run].dcache = @ \cup {S.cur.obj}])
@@ -781,6 +781,12 @@ Exec(d) ==
                          ELSE s0
                IN S' = Done(s1, Val(None))
             /\ obs' = hook
+       [] c = "declare_stream" ->
+            \* RunEngine._declare_stream -> RunBundler.declare_stream 266-296 (one object, collect=False): needs an open run; always
+            \* awaits asyncio.gather(_ensure_cached(obj)) -- a gather of one coroutine suspends even when everything is cached
+            /\ d = "ok"
+            /\ IF ~open THEN S' = Done(s0, IMS) /\ obs' = hook
+               ELSE S' = Block(s0, "declare_cache", "", {}) /\ obs' = hook
        [] c = "drop" ->
             /\ d = "ok"
             /\ IF ~open \/ ~r.bundling THEN S' = Done(s0, IMS) /\ obs' = hook
@@ -838,7 +844,7 @@ Exec(d) ==
                ELSE LET s1 == SetRun(s0, m.run, [r EXCEPT !.uncol = @ \cup {m.obj}]) IN
                     /\ S' = Done(NewStatus(s1, m.a, d), Val("status"))
                     /\ obs' = hook \o <<EvDev(m.obj, c, "", s1.nextSid)>> \o StatEv(s1, d)
-       [] c = "complete" ->
+       [] c \in {"complete", "prepare"} ->
             /\ d \in {"ok", "raise", "fail", "later"} /\ m.obj \in Flyers
             /\ IF d = "raise" THEN S' = Done(s0, Exc("DevErr")) /\ obs' = hook \o <<EvDev(m.obj, c, "raise", 0)>>
                ELSE /\ S' = Done(NewStatus(s0, m.a, d), Val("status"))
@@ -927,6 +933,17 @@ CmdDone ==
                 r1 == [MonApply(r, m) EXCEPT !.dcache = @ \cup {m.obj}]
             IN /\ S' = Done(ResetCkpt(SetRun(S, m.run, r1)), Val(None))
                /\ obs' = <<EvDoc("descriptor", MonName(m), "", 0, r.ord), EvDev(m.obj, "subscribe", "", 0)>>
+       [] S.cmd.kind = "declare_cache" ->
+            \* _prepare_stream: the stream is described now (again, if it already was), for exactly this object; a later save
+            \* into it does not describe it again; the response is (descriptor, compose_event, objects)
+            LET m == S.cur
+                r == S.runs[m.run]
+                sn == m.a
+                r1 == [r EXCEPT !.dcache = @ \cup {m.obj}, !.descs = @ \cup {sn}, !.dobjs[sn] = {m.obj},
+                                !.dord = IF sn \in r.descs THEN @ ELSE Append(@, sn),
+                                !.ctr[sn] = IF @ = 0 THEN 1 ELSE @, !.copy[sn] = IF r.ctr[sn] = 0 THEN 1 ELSE @]
+            IN /\ S' = Done(SetRun(S, m.run, r1), Val("seq:3"))
+               /\ obs' = <<EvDoc("descriptor", sn, "", 0, r.ord)>>
        [] S.cmd.kind = "ckpt_sleep" ->
             \* deferred pause at a checkpoint: after the 0.5 s sleep, _request_pause_coro(defer=False) inline (2454-2455)
             IF S.st # "running" THEN S' = Done(S, Exc("TransitionError")) /\ obs' = <<>>
